@@ -44,7 +44,7 @@ use serde_json::{json, Value};
 use std::time::Instant;
 use vls_verif::report::{self, finish, run_sharded, FinishSpec};
 use vls_verif::rng::fnv_str;
-use vls_verif::world::{World, WorldCfg};
+use vls_verif::world::{ValidatorKind, World, WorldCfg};
 use vls_verif::{oracle, Cli, Report, Rng};
 
 /// the documented chain lag tolerated for a sweep locktime ("not too far in the future"),
@@ -359,6 +359,11 @@ impl Env {
             cfg.network = Network::Testnet;
             cfg.policy = make_default_simple_policy(Network::Testnet);
         }
+        if rng.chance(1, 5) {
+            // the on-chain validator delegates the sweep / HTLC-tx rules to the simple validator
+            cfg.validator = ValidatorKind::Onchain;
+        }
+        r.set_add("world.validator", &format!("{:?}", cfg.validator));
         let min_feerate = *rng.pick(&[253u32, 253, 500, 1000]);
         let max_feerate = *rng.pick(&[333_333u32, 333_333, 25_000, 100_000]);
         cfg.policy.min_feerate_per_kw = min_feerate;
@@ -1442,7 +1447,7 @@ fn htlc_tx_case(env: &mut Env, rng: &mut Rng, r: &mut Report, cid: &CaseId) -> O
                 let cur = tx.input[0].sequence.0;
                 let mut v = *rng.pick(&[0u32, 1, 2, delay as u32, 0xffff_ffff, 0xffff_fffd]);
                 if v == cur {
-                    v = cur + 1;
+                    v = cur.wrapping_add(1);
                 }
                 tx.input[0].sequence = Sequence(v);
                 muts.push("sequence");
